@@ -387,8 +387,19 @@ def check_unit(rep, unit, registry_owner=False):
         for dec in fn.decorator_list:
             ds = src(dec)
             if 'lru_cache' in ds or ds.endswith('cache') or 'cached_property' in ds:
-                builds = any(isinstance(r.value, MUT_LIT) or (isinstance(r.value, ast.Call) and src(r.value.func) in MUT_CALLS)
-                             for r in ast.walk(fn) if isinstance(r, ast.Return) and r.value is not None)
+                def mutable_value(v, depth=0):
+                    if isinstance(v, MUT_LIT) or (isinstance(v, ast.Call) and src(v.func) in MUT_CALLS):
+                        return True
+                    if isinstance(v, ast.Name) and depth < 3:
+                        # a local that is (also) bound to a container built in this function
+                        return any(isinstance(a, ast.Assign) and any(isinstance(t, ast.Name) and t.id == v.id for t in a.targets) and mutable_value(a.value, depth + 1)
+                                   for a in ast.walk(fn))
+                    return False
+                builds = any(mutable_value(r.value) for r in ast.walk(fn) if isinstance(r, ast.Return) and r.value is not None)
+                clock = [c for c in ast.walk(fn) if isinstance(c, ast.Call) and src(c.func).endswith(('.today', '.now', '.utcnow', 'time.time', 'time.localtime'))]
+                rep.check(not clock, 'OWN.func-cache', file, qual, ds + ' / ' + (src(clock[0]) if clock else 'no clock read'), fn.lineno,
+                          'a memoised function reads the clock (%s): the cached answer of an earlier day is returned later' % (src(clock[0]) if clock else ''),
+                          what='%s: no clock read under %s' % (qual, ds))
                 rep.check(not builds, 'OWN.func-cache', file, qual, ds, fn.lineno,
                           'memoised function returns a container: every caller gets the same object, mutation by one changes the result for others')
         # methods: self.* only in __init__
